@@ -58,10 +58,23 @@ fn observe(out: &mut Out, rng: &mut Rng, op: u8, b2: Option<u8>, fixed: Option<[
     while prog.len() < 16 {
         prog.push(rng.byte());
     }
+    // a third of the runs reach the instruction through a RETI executed with a key request raised just
+    // before it: the flip-flop is then set while the interrupt status bits have been cleared by the RETI
+    let via_reti = fixed.is_none() && rng.chance(1, 3);
+    if via_reti {
+        prog.insert(0, 0x2C);
+    }
     run_line(out, &mut s, "new");
     run_line(out, &mut s, &format!("load 0 255 {}", hexs(&prog)));
     // adversarial registers/flags: random R0-R2, flags, SP somewhere harmless, pending interrupt
     let mut regs = [rng.byte() % 0xE0, rng.byte() % 0xE0, rng.byte() % 0xE0, 0, rng.byte(), 0x80 + rng.byte() % 0x20, rng.byte(), rng.byte()];
+    if via_reti {
+        // stack for the RETI: return address 1 (the instruction under test), flag register with IEF as drawn
+        let sp = regs[5];
+        let fr = regs[4];
+        run_line(out, &mut s, &format!("busw {} 1", sp));
+        run_line(out, &mut s, &format!("busw {} {}", sp.wrapping_add(1), fr));
+    }
     if let Some(f) = fixed {
         regs[0] = f[0];
         regs[1] = f[1];
@@ -76,7 +89,27 @@ fn observe(out: &mut Out, rng: &mut Rng, op: u8, b2: Option<u8>, fixed: Option<[
         s.m.raw_mut().trigger_clock_edge();
         guard += 1;
     }
-    if pend {
+    if via_reti {
+        // request raised while the RETI opcode sits in the fetch latch; run the RETI to the next boundary
+        s.m.trigger_key_interrupt();
+        let mut g = 0;
+        let mut executed = 0;
+        loop {
+            let waiting = s.m.verif_state().pending_wait_for_memory;
+            s.m.raw_mut().trigger_clock_edge();
+            g += 1;
+            if !waiting {
+                executed += 1;
+            }
+            if (executed > 0 && s.m.is_instruction_done() && !s.m.verif_state().pending_wait_for_memory) || g > 200 {
+                break;
+            }
+        }
+        if s.m.state() != State::Running {
+            let st = s.m.verif_state();
+            s.m.raw_mut().verif_force(&st, State::Running);
+        }
+    } else if pend {
         s.m.trigger_key_interrupt();
     }
     // now the fetch word has executed; step until the next fetch (or the second-opcode word for prefixes)
